@@ -167,6 +167,7 @@ def entries():
     from direct.nn.types import ModelName
 
     add("ConjGradNet:resnet", lambda: ConjGradNet(F, B, num_steps=2, denoiser_architecture=ModelName.RESNET, cg_iters=3, resnet_hidden_channels=4, resnet_num_blocks=2, resnet_batchnorm=True, resnet_scale=None), ksm, "image", 1)
+    add("ConjGradNet:resnet-zeros", lambda: ConjGradNet(F, B, num_steps=2, denoiser_architecture=ModelName.RESNET, image_init=InitType.ZEROS, cg_iters=3, resnet_hidden_channels=4, resnet_num_blocks=1, resnet_batchnorm=False, resnet_scale=None), ksm, "image", 1)
     add("ConjGradNet:unet-zero-filled", lambda: ConjGradNet(F, B, num_steps=2, denoiser_architecture=ModelName.UNET, image_init=InitType.ZERO_FILLED, cg_iters=3, unet_num_filters=4, unet_num_pool_layers=2), ksm, "image", 4, unet=2)
 
     from direct.nn.varsplitnet.varsplitnet import MRIVarSplitNet
